@@ -4,8 +4,8 @@ set -e
 export CARGO_NET_OFFLINE=true
 cd /verif/mc
 cargo build --release --offline
-if grep -q typeshare_verif /repo/cli/src/main.rs 2>/dev/null; then
-  RUSTFLAGS="--cfg typeshare_verif" cargo build --offline --manifest-path /repo/Cargo.toml -p typeshare-cli \
-     --features go,python --target-dir /verif/target/cli-verif
-fi
+RUSTFLAGS="--cfg typeshare_verif" cargo build --offline --manifest-path /repo/Cargo.toml -p typeshare-cli \
+   --features go,python --target-dir /verif/target/cli-verif
+# warm caches that only depend on /verif: TLC state graphs of the protocol model, dependencies of the C19 batch crates
+/verif/target/mc/release/tsmc warm || true
 echo setup ok
